@@ -108,6 +108,7 @@ def run(idx: Index, rep: Report, tier: str):
     from ..rules.chunks import check_chunk_sum
     check_chunk_sum(rep, "K9.shot-conservation", idx.function(f"{BACKEND}::Backend._statevector_to_frequencies"), "self.n_shots")
     check_probability_cutoffs(idx, rep)
+    check_sympy_initial_state_shapes(idx, rep)
 
 
 def _sev(rep: Report, fmt: str):
@@ -729,3 +730,29 @@ def check_probability_cutoffs(idx: Index, rep: Report):
                 rep.violation(rule, f, node, text=f"{f.qualname}: {norm(node)[:70]}", what="outcomes are dropped only below the documented threshold (1e-10) or when exactly zero",
                               reason=why + ": outcomes with a small but real probability disappear and the distribution no longer sums to one")
     rep.floor("simulate / frequency functions scanned for cut-offs", n, 6)
+
+
+def check_sympy_initial_state_shapes(idx: Index, rep: Report):
+    """The symbolic backend converts a supplied vector with sympy's matrix_to_qubit, which wants a column.  A statevector is naturally 1-D
+    (and is what the numeric backend returns), and the backend's own returned statevector is a sympy matrix: both have to be accepted.
+    Decided on the type dispatch of simulate_circuit: (1) every value handed to matrix_to_qubit has been reshaped to a column,
+    (2) the dispatch has a branch for sympy matrices (the type this backend returns)."""
+    rule = "K6.initial-state-shapes"
+    sim = idx.function(f"{TSYMPY}::SympySimulator.simulate_circuit")
+    calls = [c for c in ast.walk(sim.node) if isinstance(c, ast.Call) and norm(c.func) == "matrix_to_qubit"]
+    rep.floor("matrix_to_qubit calls in the sympy backend", len(calls), 1)
+    for c in calls:
+        a = c.args[0] if c.args else None
+        col = False
+        for x in ast.walk(a) if a is not None else []:
+            if isinstance(x, ast.Call) and isinstance(x.func, ast.Attribute) and x.func.attr == "reshape":
+                dims = x.args[0].elts if len(x.args) == 1 and isinstance(x.args[0], ast.Tuple) else x.args
+                col = len(dims) == 2 and norm(dims[1]) == "1"
+        rep.decide(col, rule, sim, c, text=f"matrix_to_qubit({norm(a)[:60] if a is not None else ''}) receives a column",
+                   what="a supplied initial statevector of any shape (1-D, row, column) is brought to a column before the conversion",
+                   reason=f"`{norm(c)[:80]}` passes the vector as given: a 1-D array raises IndexError and a row is rejected, only an N x 1 column works")
+    tests = [norm(t.args[1]) for t in ast.walk(sim.node) if isinstance(t, ast.Call) and norm(t.func) == "isinstance" and len(t.args) == 2 and norm(t.args[0]) == "initial_statevector"]
+    ok = any("Matrix" in t and "np.matrix" != t for t in tests if "np." not in t or "Matrix" in t.replace("np.matrix", ""))
+    rep.decide(ok, rule, sim, sim.node, text="the type dispatch on initial_statevector has a branch for sympy matrices",
+               what="the statevector this backend returns (a sympy matrix) can be supplied back as an initial state",
+               reason=f"type tests on initial_statevector are {tests}: the backend rejects the type of its own returned statevector")
